@@ -175,3 +175,96 @@ theorem outer_flat (h : FlatCtx M r items) : ∀ (vis prev : List FItem) (acc : 
       exact this
 
 end XsVerif.CM
+
+/-! ### S side of the flat fragment -/
+
+namespace XsVerif.CM
+open XsVerif.Wildcard XsVerif.Rx
+
+def live (items : List FItem) : List FItem := items.filter fun it => it.hi != some 0
+
+theorem liveLeaves_mkParticles (items : List FItem) :
+    (mkParticles items).liveLeaves = (live items).map FItem.leaf := by
+  induction items with
+  | nil => rfl
+  | cons it rest ih =>
+    simp only [mkParticles, Particles.liveLeaves, FItem.particle, Particle.liveLeaves, ih, live, List.filter_cons]
+    by_cases h : it.hi = some 0 <;> simp [h, bne]
+
+theorem liveLeaves_flatChoice (r : Nat) (items : List FItem) :
+    (flatChoice r items).liveLeaves = (live items).map FItem.leaf := by
+  simp [flatChoice, Particle.liveLeaves, liveLeaves_mkParticles]
+
+theorem pairwise_forall {α : Type} {R : α → α → Prop} (hs : ∀ a b, R a b → R b a) :
+    ∀ {l : List α}, l.Pairwise R → ∀ a ∈ l, ∀ b ∈ l, a ≠ b → R a b := by
+  intro l
+  induction l with
+  | nil => intro _ a ha; cases ha
+  | cons x t ih =>
+    intro hp a ha b hb hne
+    obtain ⟨hx, ht⟩ := List.pairwise_cons.mp hp
+    rcases List.mem_cons.mp ha with ha | ha
+    · rcases List.mem_cons.mp hb with hb | hb
+      · exact absurd (ha.trans hb.symm) hne
+      · rw [ha]; exact hx b hb
+    · rcases List.mem_cons.mp hb with hb | hb
+      · rw [hb]; exact hs _ _ (hx a ha)
+      · exact ih ht a ha b hb hne
+
+/-- a live item with `lo ≤ hi` has a word that starts with its own attributed symbol -/
+theorem lang_item (it : FItem) (h0 : it.hi ≠ some 0) (hle : loLeHi it.lo it.hi = true) :
+    Lang mm it.particle.toRx ((it.name, it.id) :: List.replicate (it.lo - 1) (it.name, it.id)) := by
+  simp only [FItem.particle, Particle.toRx, Lang]
+  refine ⟨List.replicate ((it.lo - 1) + 1) [(it.name, it.id)], ?_, by simp; omega, ?_, ?_⟩
+  · rw [List.flatten_replicate_singleton, List.replicate_succ]
+  · cases hh : it.hi with
+    | none => simp [leHi]
+    | some k =>
+      simp only [hh, loLeHi, decide_eq_true_eq] at hle
+      have : k ≠ 0 := fun hk => h0 (by rw [hh, hk])
+      simp only [leHi, List.length_replicate]
+      omega
+  · intro x hx
+    rw [(List.mem_replicate.mp hx).2]
+    exact ⟨(it.name, it.id), rfl, by simp [mm, FItem.leaf, Leaf.id, Leaf.matches]⟩
+
+theorem lang_toChoice {items : List FItem} {it : FItem} (hit : it ∈ items) {w : List ASym}
+    (h : Lang mm it.particle.toRx w) : Lang mm (mkParticles items).toChoice w := by
+  induction items with
+  | nil => cases hit
+  | cons jt rest ih =>
+    simp only [mkParticles, Particles.toChoice, Lang]
+    rcases List.mem_cons.mp hit with rfl | hit
+    · exact .inl h
+    · exact .inr (ih hit)
+
+theorem lang_flatChoice {r : Nat} {items : List FItem} {it : FItem} (hit : it ∈ items) {w : List ASym}
+    (h : Lang mm it.particle.toRx w) : Lang mm (flatChoice r items).toRx w := by
+  simp only [flatChoice, Particle.toRx, Lang]
+  exact ⟨[w], by simp, by simp, by simp [leHi], by simpa using lang_toChoice hit h⟩
+
+theorem visited_flatChoice (M : Ctx) (r : Nat) (items : List FItem) :
+    M.visited (flatChoice r items) = (live items).map fun it => (it.id, [r]) := by
+  simp [Ctx.visited, flatChoice, Particle.maxIsZero, Particle.leafPaths, leafPaths_mkParticles, live]
+
+/-- M on the flat fragment: accepted iff the live items have pairwise different names -/
+theorem accepts_flat {M : Ctx} {r : Nat} {items : List FItem} (h : FlatCtx M r items) :
+    M.accepts (flatChoice r items) = true ↔ (live items).Pairwise (fun a b => a.name ≠ b.name) := by
+  have hsub : (live items).Sublist items := List.filter_sublist
+  have := outer_flat h (live items) [] {} (fun jt hjt => hsub.subset (by simpa using hjt))
+    (by simpa using h.ids.sublist hsub) List.Pairwise.nil
+  simpa [Ctx.accepts, Ctx.checkModel, visited_flatChoice, Option.isNone_iff_eq_none] using this
+
+/-- S on the flat fragment: two different live items with the same name are a conflict after the
+    empty prefix (both attributed symbols start a word of the model) -/
+theorem conflict_flat {r : Nat} {items : List FItem} {it jt : FItem} (hit : it ∈ live items) (hjt : jt ∈ live items)
+    (hle1 : loLeHi it.lo it.hi = true) (hle2 : loLeHi jt.lo jt.hi = true) (hn : it.name = jt.name) :
+    Lang mm (flatChoice r items).toRx ((it.name, it.id) :: List.replicate (it.lo - 1) (it.name, it.id)) ∧
+    Lang mm (flatChoice r items).toRx ((it.name, jt.id) :: List.replicate (jt.lo - 1) (it.name, jt.id)) := by
+  obtain ⟨hi1, hl1⟩ := List.mem_filter.mp hit
+  obtain ⟨hi2, hl2⟩ := List.mem_filter.mp hjt
+  refine ⟨lang_flatChoice hi1 (lang_item it (by simpa [bne] using hl1) hle1), ?_⟩
+  rw [hn]
+  exact lang_flatChoice hi2 (lang_item jt (by simpa [bne] using hl2) hle2)
+
+end XsVerif.CM
